@@ -3,6 +3,7 @@ package props
 import (
 	"fmt"
 	"math/big"
+	"regexp"
 	"strings"
 	"time"
 
@@ -84,7 +85,7 @@ func c12Bases() []c12Base {
 		}, []string{"b.n", "b.p"}, map[string]string{"b.n": "3", "b.p": "1/3"}},
 		{"sendall", func() *gen.Program {
 			return &gen.Program{Stmts: []gen.Stmt{
-				sendAllS(U, lst(sa("a"), &gen.SrcCapped{Cap: gen.Mon(U, "2"), From: sa("b")}), da("x")),
+				sendAllS(U, lst(sa("a"), &gen.SrcCapped{Cap: gen.Mon(U, "2"), From: sa("b")}, &gen.SrcOverdraft{Addr: gen.Acct("b"), Bounded: gen.Mon(U, "3")}), da("x")),
 				&gen.Call{Name: "set_tx_meta", Args: []gen.Expr{gen.Str("k"), &gen.Infix{Op: "-", L: gen.Num("1"), R: gen.Num("3")}}}}}
 		}, nil, map[string]string{}},
 		{"meta-six", func() *gen.Program {
@@ -112,6 +113,11 @@ func c12Bases() []c12Base {
 					&gen.SrcAllot{Items: []*gen.SrcAllotItem{{A: gen.Port("1/2"), From: sa("b")}, {A: &gen.Remaining{}, From: sa("a")}}}),
 				da("x"))}}
 		}, nil, map[string]string{}},
+		{"infix-sub", func() *gen.Program {
+			return &gen.Program{Vars: []*gen.VarDecl{decl("monetary", "amt")},
+				Stmts: []gen.Stmt{&gen.Send{Sent: &gen.SentLit{E: &gen.Infix{Op: "-", L: v("amt"), R: gen.Mon(U, "1")}},
+					Src: &gen.SrcOverdraft{Addr: gen.Acct("a")}, Dst: da("x")}}}
+		}, nil, map[string]string{"amt": "USD 4"}},
 		{"infix-mon", func() *gen.Program {
 			return &gen.Program{Vars: []*gen.VarDecl{decl("monetary", "amt")},
 				Stmts: []gen.Stmt{&gen.Send{Sent: &gen.SentLit{E: &gen.Infix{Op: "+", L: v("amt"), R: gen.Mon(U, "2")}},
@@ -121,13 +127,15 @@ func c12Bases() []c12Base {
 }
 
 var c12Values = map[string][]string{
-	"monetary": {"", "USD", "USD 10 20", "USD x", "USD -5", "EUR 4", "USD 18446744073709551617", " USD 4", "USD  4", "USD 4.5", "USD 18446744073709551616", "USD 9223372036854775808", "US\"D 10", "EU\\R 10", "A\\u0042 10"},
-	"account":  {"", "world", "a:b", "@a", "<kept>", "a b", "zz"},
+	"monetary": {"", "USD", "USD 10 20", "USD x", "USD -5", "EUR 4", "USD 18446744073709551617", " USD 4", "USD  4", "USD 4.5", "USD 18446744073709551616", "USD 9223372036854775808", "US\"D 10", "EU\\R 10", "A\\u0042 10", "USD 010", "USD 0x10", "USD 1_0", "USD +4"},
+	"account":  {"", "world", "a:b", "@a", "<kept>", "a b", "zz", "a:b^c", "a:b`c", "a:[b]", "a:b\\c", "a^b"},
 	"portion":  {"", "1/0", "0/0", "150%", "3/2", "-1/2", "abc", "50%", "0.5", "1/2/3", "18446744073709551617/36893488147419103234", "0%", "100%", "1 / 3"},
 	"number":   {"", "abc", "-3", "18446744073709551617", "1.5", "0x10", "1_000", "+7", "0", "9223372036854775808", "18446744073709551615", "18446744073709551616", "-9223372036854775809"},
 	"string":   {"", "héllo \"q\"", "k k", "15% of gross", "100%d %s %v", "a\\nb"},
 	"asset":    {"", "usd", "EUR", "A\"B", "A\\"},
 }
+
+var c12AccountRe = regexp.MustCompile(`^[a-zA-Z0-9_-]+(:[a-zA-Z0-9_-]+)*$`)
 
 func c12Replacements() []func() gen.Expr {
 	return []func() gen.Expr{
@@ -251,7 +259,7 @@ func runC12(w *mc.Worker) {
 		a, b *big.Int
 	}{{"rich", bi(10), bi(10)}, {"poor", bi(0), bi(0)}, {"negative", bi(-3), bi(10)}, {"huge", H, H}}
 	name := fmt.Sprintf("dev%d", total)
-	w.Stage(name, fmt.Sprintf("11 base scripts, at most %d deviation(s) in total (expression/allotment/declaration/call edits, variable values, sheets, metadata), every store call failed in turn", total), func() {
+	w.Stage(name, fmt.Sprintf("12 base scripts, at most %d deviation(s) in total (expression/allotment/declaration/call edits, variable values, sheets, metadata), every store call failed in turn", total), func() {
 		w.Outer(name+"/c12", total, func(o *mc.Explorer) {
 			b := bases[o.Choose(len(bases))]
 			prog := b.Mk()
@@ -358,6 +366,20 @@ func runC12(w *mc.Worker) {
 					return c
 				}
 				size := len(text) + len(varsStr(vars)) + dev*50
+				// an account variable whose text is outside the account grammar is an ill-typed variable
+				badAccount := ""
+				for _, p := range plain {
+					if val, given := vars[p.name]; given && p.typ == "account" && !c12AccountRe.MatchString(val) {
+						for _, d := range prog.Vars {
+							if d.Name.Name == p.name && d.Type.Name == "account" {
+								badAccount = val
+							}
+						}
+					}
+				}
+				if badAccount != "" && out.Err == nil && out.Panic == "" && dev <= 1 {
+					w.Violation("C12.error-swallowed:invalid-account-name", fmt.Sprintf("the account variable value %q is not an account name, yet execution succeeded with %s", badAccount, postingsStr(out.Postings)), size, mk(out, 0))
+				}
 				switch {
 				case out.Panic != "":
 					w.Violation("C12.panic@"+out.Where, "execution panicked: "+out.Panic, size, mk(out, 0))
